@@ -508,6 +508,14 @@ func (env *Env) trCall(x ECall) TV {
 			payload = fmt.Sprintf("(%s %s)", eng.boxFn(so), val)
 		}
 		return TV{T: fmt.Sprintf("(mk-iface %s %s)", eng.typeIDTerm(el), payload), S: "Iface"}
+	case "addr":
+		// addr(x): the address of the addressable local variable (or captured variable) x
+		if id, ok := args[0].(EIdent); ok {
+			if tv, ok := env.vars["&"+id.Name]; ok {
+				return tv
+			}
+		}
+		env.fail("addr(%s): not an addressable local variable visible here", args[0])
 	case "boxedSlice":
 		// boxedSlice(x): the slice behind the interface argument x, which the caller built from a slice value
 		a := fc.argSSA(env, args[0])
